@@ -549,11 +549,12 @@ func c15groupHeads() *c15group {
 
 func c15groupRemotes() *c15group {
 	g := &c15group{
-		names:    []string{"remotes/o/x", "remotes/o_/x", "remotes/oX/x", "remotes/O/x", "remotes/o/y", "remotes/n/x", "heads/x"},
-		prefixes: []string{"", "remotes/", "remotes/o/", "remotes/o_/", "remotes/oX/", "remotes/O/", "remotes/n/", "remotes/o"},
+		names:    []string{"remotes/o/x", "remotes/o_/x", "remotes/oX/x", "remotes/O/x", "remotes/o/y", "remotes/o/f/x", "remotes/n/x", "remotes/n/f/x", "remotes/n/y", "heads/x"},
+		prefixes: []string{"", "remotes/", "remotes/o/", "remotes/o/f/", "remotes/o_/", "remotes/oX/", "remotes/O/", "remotes/n/", "remotes/o"},
 		remotes:  []string{"o", "o_", "oX", "O", "n", "o%"},
 	}
-	for _, n := range []string{"remotes/o/x", "remotes/o_/x", "remotes/oX/x", "remotes/O/x", "remotes/o/y", "heads/x"} {
+	// remotes/o/f/x: a remote-tracking branch whose own name contains a slash
+	for _, n := range []string{"remotes/o/x", "remotes/o_/x", "remotes/oX/x", "remotes/O/x", "remotes/o/y", "remotes/o/f/x", "heads/x"} {
 		g.ops = append(g.ops, c15saveRefOp(n, c15v1, "v1"))
 	}
 	g.ops = append(g.ops, c15saveRefOp("remotes/o_/x", c15v2, "v2"), c15setOp("remotes/oX/x", c15v2, "v2"))
